@@ -1,8 +1,84 @@
 package main
 
-import "fmt"
+import (
+	"fmt"
+	"os"
+	"path/filepath"
 
+	"verif/engine/gosym"
+)
+
+// selftest: the pipeline itself must (a) report and natively reproduce a violated assertion, a schedule-dependent
+// violation and a non-terminating loop, and (b) pass a harness that needs the solver.
 func selftest() int {
-	fmt.Println("selftest: (not yet implemented)")
+	id := "SELFTEST"
+	srcs, err := collect(id, "quick")
+	if err != nil || len(srcs) == 0 {
+		fmt.Println("selftest: cannot collect harnesses:", err)
+		return 2
+	}
+	overlay := map[string][]byte{}
+	zz, err := os.ReadFile(filepath.Join(verifDir, "rt/zzverif/zzverif.go"))
+	if err != nil {
+		fmt.Println(err)
+		return 2
+	}
+	overlay[filepath.Join(repoDir, "internal/zzverif/zzverif.go")] = zz
+	pkgs := map[string]bool{}
+	for _, s := range srcs {
+		overlay[filepath.Join(repoDir, s.Virtual)] = s.Data
+		pkgs["./"+filepath.Dir(s.Virtual)] = true
+	}
+	var patterns []string
+	for p := range pkgs {
+		patterns = append(patterns, p)
+	}
+	eng, err := gosym.Load(repoDir, overlay, patterns)
+	if err != nil {
+		fmt.Println("selftest: load failed:", err)
+		return 2
+	}
+	eng.Tier = "quick"
+	eng.Workers = 4
+	hs := eng.Harnesses()
+	results := eng.RunAll(hs, nil)
+	want := map[string]string{"VH_st_must_fail": "assert", "VH_st_must_pass": "", "VH_st_sched_must_fail": "assert", "VH_st_loop_must_fail": "bound"}
+	bad := 0
+	for _, r := range results {
+		exp, known := want[r.H.Name]
+		if !known {
+			continue
+		}
+		if exp == "" {
+			if len(r.Cexs) != 0 || r.Asserts == 0 || len(r.Unsupp) != 0 {
+				fmt.Printf("selftest: %s should pass: cexs=%d asserts=%d unsupported=%v\n", r.H.Name, len(r.Cexs), r.Asserts, r.Unsupp)
+				bad++
+			}
+			continue
+		}
+		if len(r.Cexs) == 0 {
+			fmt.Printf("selftest: %s should be violated (%s) but no counterexample was found\n", r.H.Name, exp)
+			bad++
+			continue
+		}
+		c := r.Cexs[0]
+		if c.Kind != exp {
+			fmt.Printf("selftest: %s: expected %s, got %s\n", r.H.Name, exp, c.Kind)
+			bad++
+			continue
+		}
+		dir, ok, det := replayCex(id, "quick", c, r.H, srcs)
+		if !ok {
+			fmt.Printf("selftest: %s: counterexample not reproduced natively: %s (%s)\n", r.H.Name, det, dir)
+			bad++
+			continue
+		}
+		os.RemoveAll(dir)
+	}
+	if bad > 0 {
+		fmt.Println("selftest: FAILED")
+		return 2
+	}
+	fmt.Printf("selftest: ok (%d harnesses: violated assertion, schedule-dependent violation and non-termination found and reproduced natively; solver-decided harness passes)\n", len(results))
 	return 0
 }
